@@ -1,4 +1,5 @@
 """C20 — names must be declared once per scope before use; `_` never binds."""
+import anchors
 import mir
 import ops
 from ops import ERR
@@ -275,28 +276,59 @@ def rule_R20_3(ctx):
     return r
 
 
-SCOPE_MAP = "HashMap::<std::string::String, (eval::value::SourcedValue"
 
 
 UPDATERS = set()
 
 
+def scope_map_ops(prog):
+    """{scope-module function: names of the scope-map methods it reaches},
+    through its closures and the scope module's own helpers (`get`/`assign`
+    that share one private `with_binding` walk are still lookups)."""
+    import anchors
+    direct, callees = {}, {}
+    for f in prog.full_fns(generated=False):
+        if not f.module.startswith(SMOD[0]):
+            continue
+        owner = f.root_fn().path if f.is_closure else f.path
+        for c in f.calls():
+            if c.is_ptr:
+                continue
+            if anchors.scope_map_path(prog) in (c.res_full or ""):
+                direct.setdefault(owner, set()).add((c.res or "").split("::")[-1])
+            g = prog.fns.get(c.res or "")
+            if g is not None and g.full and g.module.startswith(SMOD[0]) and not g.generated:
+                callees.setdefault(owner, set()).add(g.root_fn().path if g.is_closure else g.path)
+    out = {p: set(v) for p, v in direct.items()}
+    changed = True
+    while changed:
+        changed = False
+        for p, cs in callees.items():
+            cur = out.setdefault(p, set())
+            for q in cs:
+                extra = out.get(q, set()) - cur
+                if extra:
+                    cur |= extra
+                    changed = True
+    return out
+
+
 def scope_api(prog):
     """Classify the scope module's functions by what they do to the scope
     map: (inserters, lookups).  A lookup reads or updates existing bindings
-    and reports a miss as None/false."""
+    and reports a miss as None/false; it is an *updater* when it can reach
+    `get_mut` and is handed a value to store."""
     ins, look = set(), {}
+    ops_ = scope_map_ops(prog)
     for f in prog.full_fns(generated=False):
         if not f.module.startswith(SMOD[0]) or f.is_closure:
             continue
-        names = set()
-        for c in f.calls():
-            if SCOPE_MAP in (c.res_full or ""):
-                names.add((c.res or "").split("::")[-1])
+        names = ops_.get(f.path, set())
         if names & {"insert", "entry", "extend"}:
             ins.add(f.path)
         elif names & {"get", "get_mut", "contains_key"}:
-            if "get_mut" in names:
+            ptys = f.locals[1:f.arg_count + 1]
+            if "get_mut" in names and any(t == "eval::value::SourcedValue" for t in ptys):
                 UPDATERS.add(f.path)
             rt = f.locals[0] if f.locals else ""
             if rt.startswith("std::option::Option<"):
@@ -322,7 +354,21 @@ def rule_R20_4(ctx):
                 continue
             n += 1
             if c.target is None or f.term(c.target)["k"] != "switch":
-                r.unproven.append("%s: result of %s not tested directly" % (f.path, c.res))
+                # combinator form: `scopes.get(name).ok_or_else(|| undefined(..))`
+                us = ops.forward_users(f, c)
+                conv = [u for u in us if (u.res or "").split("::")[-1] in ("ok_or_else", "ok_or")]
+                dflt = [u for u in us if (u.res or "").split("::")[-1] in
+                        ("unwrap_or", "unwrap_or_else", "unwrap_or_default", "map_or", "map_or_else", "or", "or_else")]
+                if dflt:
+                    r.inst("%s: miss of %s replaced by a default (%s)" % (f.path, c.res.split("::")[-1], dflt[0].res.split("::")[-1]))
+                    r.fail("%s | miss-edge of %s undefined=False declares=False" % (f.path, c.res.split("::")[-1]),
+                           "when %s finds no binding, %s substitutes a default "
+                           "value (%s) instead of raising Undefined" % (c.res, f.path, dflt[0].res), where=dflt[0].loc)
+                elif len(conv) == 1 and (ERR, "Undefined") in ops.block_constructs(prog, f, conv[0].bb):
+                    r.inst("%s: miss of %s -> Undefined (via %s)" % (f.path, c.res.split("::")[-1], conv[0].res.split("::")[-1]))
+                    r.ok()
+                else:
+                    r.unproven.append("%s: result of %s not tested directly" % (f.path, c.res))
                 continue
             info = f.switch_info(c.target)
             if not info or (lookups[c.res] == "option") != (info["kind"] == "discr"):
@@ -342,7 +388,8 @@ def rule_R20_4(ctx):
                 hit = dict((str(v), t) for v, t in info["cases"]).get("True")
             avoid = [hit] if hit is not None else []
             reach = f.reach_from(miss, avoid=avoid)
-            und = [1 for bb, i, pl, kd, ao, sp in f.aggregates(ERR, "Undefined") if bb in reach]
+            und = [1 for bb, i, pl, kd, ao, sp in f.aggregates(ERR, "Undefined") if bb in reach] \
+                or [1 for bb in reach if (ERR, "Undefined") in ops.block_constructs(prog, f, bb)]
             decl = [d for d in f.calls() if d.bb in reach and d.res in inserters]
             r.inst("%s: miss edge of %s -> Undefined=%s" % (f.path, c.res.split("::")[-1], bool(und)))
             if und and not decl:
@@ -387,7 +434,7 @@ def rule_R20_5(ctx):
     for f in prog.full_fns(generated=False):
         for c in f.calls():
             full = c.res_full or ""
-            if "HashMap::<std::string::String, (eval::value::SourcedValue" in full \
+            if anchors.scope_map_path(prog) in full \
                     and (c.res or "").split("::")[-1] in ("insert", "entry", "extend", "get_mut", "remove"):
                 ins.add((f.path, (c.res or "").split("::")[-1]))
     r.inst("scope map writers: %s" % sorted(ins))
